@@ -30,6 +30,7 @@ def runs(prop, tier):
          ("blob grammar K=3,T=2 x patterns U, M3, k in {%s}" % ks_q, [["--grammar", "blobs:3:2", "--alpha", a, "--ks", ks_q] for a in ("U", "M3")]),
          ("dense families x U", [["--families", "K:6,K:7,wheel:6,prism:4,petersen,Kb:3:4,grid:3:4,cube:3", "--alpha", "U", "--ks", ks_q]]),
          ("G(5) x {1,100} (extreme weight ratio)", [["--n", 5, "--alpha", "H2", "--ks", ks_q]]),
+         ("G(5) with at most 6 edges x PM2 (every assignment of distinct powers of two), k in {%s}" % ks_q, [["--n", 5, "--alpha", "PM2", "--max-m", 6, "--ks", ks_q]]),
          ("edge orientation reversed / alternating: G(0..4) x A3, G(5) x A2", [["--n", n, "--alpha", "A3", "--ks", ks_q, "--orient", o] for n in range(2, 5) for o in (1, 2)] + [["--n", 5, "--alpha", "A2", "--ks", ks_q, "--orient", 1]]),
          ("theta graphs with chords (11 vertices, many non-spanner edges competing for one heavy edge): edge #0 = 1000, every other edge over {1,2}, both orientations",
           [["--families", "thetac:3:4", "--alpha", "A2H", "--ks", "2,3", "--wchunks", 32, "--orient", o] for o in (0, 1)]),
@@ -44,6 +45,7 @@ def runs(prop, tier):
     return q[2:] + [("G(0..4) x A3, k in {%s}" % ks_t, [["--n", n, "--alpha", "A3", "--ks", ks_t] for n in range(0, 5)]),
             ("G(5) x A2, k in {%s}" % ks_t, [["--n", 5, "--alpha", "A2", "--ks", ks_t]]),
             ("G(5) x A3, k in {%s}" % ks_t, [["--n", 5, "--alpha", "A3", "--ks", ks_t]]),
+            ("G(5) with at most 7 edges x PM2 and x PM, k in {%s}" % ks_q, [["--n", 5, "--alpha", a, "--max-m", 7, "--ks", ks_q] for a in ("PM2", "PM")]),
             ("G(5) x D, k in {%s}" % ks_q, [["--n", 5, "--alpha", "D", "--ks", ks_q]]),
             ("families x A2", [["--families", "wheel:5,wheel:6,prism:3,prism:4,Kb:3:3,cube:3,grid:3:3,petersen,grid:2:5", "--alpha", "A2", "--ks", ks_t]]),
             ("G(6) x U, k in {%s}" % ks_t, [["--n", 6, "--alpha", "U", "--ks", ks_t]]),
